@@ -9,7 +9,7 @@ from . import sorts as S
 from .sorts import Node, Ty, I, B, R
 from .symex import (GenObj, Unsupported, PathAbort, PyRaise, ExcVal, ExcClass, Obj, ClassRef, ModuleRef,
                     FuncVal, Builtin, ContentView, PayloadView, ArgsView, QVars, ZSetTuple,
-                    SetVal, DictVal, Opaque, FloatVal, Frame, SeqList, PrefList,
+                    SetVal, DictVal, Opaque, FloatVal, Frame, SeqList, PrefList, NodeMap,
                     is_z3, is_node, is_ty, is_sym_int, is_sym_bool, is_sym_real, is_sym_str,
                     is_zset, to_int, to_real, to_bool, to_str, is_numeric, is_boolish,
                     is_realish, is_intish, is_strish, concrete, z3const)
@@ -719,6 +719,10 @@ def compare(world, ex, opname, a, b):
 
 
 def contains(world, ex, cont, x):
+    if isinstance(cont, NodeMap):
+        if not is_node(x):
+            raise Unsupported("NodeMap key that is not a formula")
+        return z3.IsMember(x, cont.dom)
     if isinstance(cont, PayloadView):
         cont = resolve_payload(world, ex, cont)
     if isinstance(cont, (set, frozenset, list, tuple)):
@@ -956,6 +960,12 @@ def norm_index(world, ex, i, n):
 def getitem(world, ex, o, k):
     if isinstance(o, PayloadView):
         o = resolve_payload(world, ex, o)
+    if isinstance(o, NodeMap):
+        if not is_node(k):
+            raise Unsupported("NodeMap key that is not a formula")
+        if ex.decide(z3.IsMember(k, o.dom)):
+            return world.touch(ex, z3.Select(o.arr, k))
+        raise PyRaise(ExcVal("KeyError", (k,)))
     if isinstance(o, (list, tuple)):
         if isinstance(k, slice):
             if all(x is None or isinstance(x, int) for x in (k.start, k.stop, k.step)):
@@ -1069,6 +1079,11 @@ def getitem(world, ex, o, k):
 
 
 def setitem(world, ex, o, k, v):
+    if isinstance(o, NodeMap):
+        if not (is_node(k) and is_node(v)):
+            raise Unsupported("NodeMap item that is not a formula")
+        o.arr, o.dom = z3.Store(o.arr, k, v), z3.SetAdd(o.dom, k)
+        return
     if isinstance(o, list):
         o[norm_index(world, ex, k, len(o))] = v
         return
